@@ -441,7 +441,7 @@ func ruleSET1(p *Program) *RuleResult {
 	} else {
 		r.bad("impl.Select|append(output...)", "select() does not splice the projection results", p.pos(sel.Pos()), "select(e) must be the in-order concatenation of e over the items")
 	}
-	r.floor("appends", 4)
+	r.floor("appends", 2)
 	return r
 }
 
@@ -525,7 +525,7 @@ func ruleSET4(p *Program) *RuleResult {
 			}
 		}
 	}
-	r.floor("dropped_error_sites", 3)
+	r.floor("dropped_error_sites", 1)
 	return r
 }
 
